@@ -16,7 +16,7 @@ if TYPE_CHECKING:
     from .common import LexerConf
     from .parsers.lalr_parser_state import ParserState
 
-from .utils import classify, get_regexp_width, Serialize, logger, TextSlice, TextOrSlice
+from .utils import classify, get_regexp_width, regexp_may_match_newline, Serialize, logger, TextSlice, TextOrSlice
 from .exceptions import UnexpectedCharacters, ConfigurationError, LexError, UnexpectedToken
 from .grammar import TOKEN_DEFAULT_PRIORITY
 
@@ -442,15 +442,14 @@ class Scanner:
                 best = m
         return best.start() if best is not None else None
 
-def _regexp_has_newline(r: str):
-    r"""Expressions that may indicate newlines in a regexp:
-        - newlines (\n)
-        - escaped newline (\\n)
+def _regexp_has_newline(r: str, flags: int=0):
+    r"""Returns whether a match of the regexp may contain a newline, for example through:
+        - newlines (\n), in any spelling (\x0a, \012, ...)
+        - character classes and ranges that include it (\s, \W, \D, [\x00-\x20], ...)
         - anything but ([^...])
-        - any-char (.) when the flag (?s) exists
-        - spaces (\s)
+        - any-char (.) when the flag (?s) exists, inline or global
     """
-    return '\n' in r or '\\n' in r or '\\s' in r or '[^' in r or ('(?s' in r and '.' in r)
+    return regexp_may_match_newline(r, flags)
 
 
 class LexerState:
@@ -623,7 +622,7 @@ class BasicLexer(AbstractBasicLexer):
                 raise LexError("interegular must be installed for strict mode. Use `pip install 'lark[interegular]'`.")
 
         # Init
-        self.newline_types = frozenset(t.name for t in terminals if _regexp_has_newline(t.pattern.to_regexp()))
+        self.newline_types = frozenset(t.name for t in terminals if _regexp_has_newline(t.pattern.to_regexp(), conf.g_regex_flags))
         self.ignore_types = frozenset(conf.ignore)
 
         terminals.sort(key=lambda x: (-x.priority, -x.pattern.max_width, -len(x.pattern.value), x.name))
